@@ -1,3 +1,4 @@
+import Rp2.Props.Tables.Loops
 import Rp2.Proofs.Balance
 import Rp2.Proofs.BalanceTheorems
 /-! # C08 — histories that overdraw an account are rejected unless -n is given -/
@@ -27,4 +28,21 @@ theorem model_never_negative_never_rejected (toD : Option Int) (ins : List InTx)
 /-- non-vacuity: the code's tolerance on the grid (`x ≤ -6` units) is antitone -/
 example : ∀ x y : Int, x ≤ y → decide (y ≤ -6) = true → decide (x ≤ -6) = true := by
   intro x y h1 h2; simp only [decide_eq_true_eq] at *; omega
+
+/-- **tie to the source (translator)**: the overdraft test as `BalanceSet.__init__` spells it —
+    `not is_equal_within_precision(balance, ZERO, 10 decimals) and balance < ZERO` with `RP2Decimal`'s tolerant comparisons — is, on the grid,
+    the model's `belowTol` (i.e. balance ≤ −6·10⁻¹¹, `tolerance_on_grid`) -/
+theorem source_overdraft_test_is_tolerance (u : Int) (h : u.natAbs < 10 ^ 29) :
+    ((!(eq13 (quant 10 (dsub (ofUnits u) (0 : Rat))) (0 : Rat))) && lt13 (ofUnits u) (0 : Rat)) = belowTol u :=
+  overdraft_test_eq_belowTol u h
+/-- the replay loop translated from the source raises exactly when the model rejects, one round at a time: after a debit that leaves the
+    debited account below tolerance (and without `-n`) the translated block is `none` (the Python `raise`), otherwise it continues in a state
+    that holds the model's rows -/
+theorem source_loop_round_rejects_iff_model (allowNeg : Bool) (s : Gen.L.St) (bs : List BalRow) (t : AnyTx) (M : Nat) (h : Tables.Rel s bs)
+    (hb : Tables.Bnd bs M) (hM : M + Tables.mass t < 10 ^ 29) :
+    match balStep allowNeg bs t with
+    | .ok bs' => ∃ s', Tables.stepAny allowNeg s t = some s' ∧ Tables.Rel s' bs' ∧ Tables.Bnd bs' (M + Tables.mass t)
+    | .error _ => Tables.stepAny allowNeg s t = none :=
+  Tables.step_sim allowNeg s bs t M h hb hM
+
 end Rp2.C08
